@@ -398,13 +398,49 @@ def judge_c14(spec, out, res):
         v2, _ = ask(res, 'unbounded-ray', ray, None)
         if v != 'sat' or v2 != 'sat':
             res['fails'].append({'ob': 'unbounded-report-not-genuine', 'feasible': v, 'ray': v2, 'point': None})
-    else:
+    elif end != 'limit':
         res['fails'].append({'ob': 'trace-did-not-finish', 'end': end, 'steps': len(steps), 'point': None})
     # the packaged step-by-step solver must end too, with the same optimum
     sb = out.get('steps:1000') or out.get('steps')
     if sb is not None and end == 'finished':
         if sb.get('err') or sb.get('panic'):
             res['fails'].append({'ob': 'step-by-step-failed', 'err': sb.get('err'), 'point': None})
+    if end == 'limit':
+        # raw `Tableau::step` (Dantzig's rule, every pivot above validated) is still pivoting after 200 steps: the
+        # vertex is one on which that rule cycles. The METHOD (`solve_step_by_step`, which falls back to Bland's rule
+        # when the objective stalls) must then finish within its limit, at the true optimum / a genuine unbounded report.
+        res['cycling'] = True
+        if sb is None or sb.get('panic') or sb.get('err') not in (None, 'Unbounded'):
+            res['fails'].append({'ob': 'cycling-not-escaped', 'err': (sb or {}).get('err'), 'raw_steps': len(steps) - 1, 'point': None})
+        elif sb.get('err') == 'Unbounded':
+            v, _ = ask(res, 'cyc-unbounded-feasible', feas, None)
+            d = [z3.Real('d%d' % i) for i in range(nv)]
+            ray = [t >= 0 for t in d]
+            for r in S['rows']:
+                ray.append(z3.Sum([Qs(a) * d[i] for i, a in enumerate(r['a']) if float(a) != 0] + [z3.RealVal(0)]) == 0)
+            ray.append(z3.Sum([Qs(c) * d[i] for i, c in enumerate(S['obj']) if float(c) != 0] + [z3.RealVal(0)]) < 0)
+            v2, _ = ask(res, 'cyc-unbounded-ray', ray, None)
+            if v != 'sat' or v2 != 'sat':
+                res['fails'].append({'ob': 'unbounded-report-not-genuine', 'feasible': v, 'ray': v2, 'point': None})
+        else:
+            Tf = sb['final']
+            zf = -float(Tf['value'])
+            m = sem.Q(TTOL * (1 + abs(Fraction(zf))) * 10)
+            v, pt = ask(res, 'cyc-final-optimal', feas + [std_obj(S, y) < sem.Q(zf) - m], yv)
+            if v == 'sat':
+                res['fails'].append({'ob': 'final-not-optimal', 'reported': fs(zf), 'point': zq.point_json(pt)})
+            vals = [Fraction(0)] * nv
+            for r, col in enumerate(Tf['basis']):
+                vals[col] = F(Tf['b'][r])
+            if any(v_ < -TTOL for v_ in vals):
+                res['fails'].append({'ob': 'basic-solution-negative', 'step': 'final', 'point': None})
+            for i, r in enumerate(S['rows']):
+                lhs = sum(F(a) * vals[j] for j, a in enumerate(r['a']))
+                if abs(lhs - F(r['b'])) > TTOL * 10 * (1 + abs(F(r['b']))):
+                    res['fails'].append({'ob': 'final-basic-solution-violates-original-row', 'row': i, 'point': None})
+                    break
+            if abs(sum(F(c) * vals[j] for j, c in enumerate(S['obj'])) - Fraction(zf)) > TTOL * 10 * (1 + abs(Fraction(zf))):
+                res['fails'].append({'ob': 'final-value-is-not-the-objective-at-the-basic-solution', 'point': None})
     res['steps'] = len(steps) - 1
 
 
@@ -586,10 +622,13 @@ def family(prop, t, sd):
             specs = gen.l_exhaustive(level=1)[::3] + sum([gen.l_seeded(200 * sd + k, 10000, offsets=True, satisfy=True, cont_only=(k % 2 == 1)) for k in range(6)], [])
     else:
         if t == 'quick':
-            specs = gen.l_exhaustive(cont_only=True)[::4] + gen.l_seeded(41, 3000, cont_only=True) + degenerate_family()
+            specs = gen.l_exhaustive(cont_only=True)[::4] + gen.l_seeded(41, 3000, cont_only=True) + degenerate_family() + cycling_family()
         else:
-            specs = gen.l_exhaustive(cont_only=True, level=1)[::2] + sum([gen.l_seeded(300 * sd + k, 10000, cont_only=True) for k in range(5)], []) + degenerate_family()
+            specs = gen.l_exhaustive(cont_only=True, level=1)[::2] + sum([gen.l_seeded(300 * sd + k, 10000, cont_only=True) for k in range(5)], []) + degenerate_family() + cycling_family()
         specs = [s for s in specs if s['dir'] != 'solve']
+    if prop == 'C05':
+        # degenerate / cycling LPs: "the simplex-based solvers always reach one of the three verdicts"
+        specs += degenerate_family() + cycling_family()
     if prop in ('C13', 'C05', 'C14'):
         specs += compiled_continuous_models(t)
     lim = os.environ.get('VERIF_LIMIT')
@@ -625,6 +664,52 @@ def compiled_continuous_models(t):
         specs.append({'vars': L['vars'], 'rows': [{'a': r['a'], 'c': r['c'], 'b': r['b']} for r in L['rows']], 'obj': L['obj'], 'dir': L['dir'], 'off': L['off'],
                       'domain_order': L['domain_keys']})
     return specs
+
+
+def cycling_family():
+    """the classical LPs on which the largest-coefficient rule with smallest-index ties cycles (Beale 1955,
+    Chvatal 1983, Kuhn / Marshall-Suurballe), plain and 'shifted': an extra independent variable with the most
+    attractive objective coefficient and x0 <= 1 (stated once or twice), so that the cycle is met only AFTER an
+    improving pivot; two blocks side by side, so that a second degenerate vertex follows the escape from the first;
+    column orders reversed / rotated (which pivot sequence cycles depends on the order)."""
+    nn = gen.D('NNReal', 0, 'inf')
+    blocks = {
+        'chvatal': ([[0.5, -5.5, -2.5, 9], [0.5, -1.5, -0.5, 1], [1, 0, 0, 0]], [0, 0, 1], [10, -57, -9, -24], 'max'),
+        'beale': ([[0.25, -60, -0.04, 9], [0.5, -90, -0.02, 3], [0, 0, 1, 0]], [0, 0, 1], [-0.75, 150, -0.02, 6], 'min'),
+        'beale8': ([[0.25, -8, -1, 9], [0.5, -12, -0.5, 3], [0, 0, 1, 0]], [0, 0, 1], [-0.75, 20, -0.5, 6], 'min'),
+        'kuhn': ([[-2, -9, 1, 9], [1 / 3, 1, -1 / 3, -2], [2, 3, -1, -12]], [0, 0, 2], [-2, -3, 1, 12], 'min'),
+    }
+    out = []
+
+    def add(A, b, c, d):
+        out.append(gen.lm_spec([nn] * len(c), [(list(r), '<=', bi) for r, bi in zip(A, b)], list(c), d))
+
+    for name, (A, b, c, d) in blocks.items():
+        n = len(c)
+        add(A, b, c, d)
+        perms = [list(reversed(range(n))), [(i + 1) % n for i in range(n)]]
+        for pm in perms:
+            add([[r[j] for j in pm] for r in A], b, [c[j] for j in pm], d)
+        # shifted: improving pivot first
+        big = 100 if d == 'max' else -100
+        for twice in (False, True):
+            for front in (True, False):
+                A2 = [([0] + r if front else r + [0]) for r in A]
+                row = ([1] + [0] * n) if front else ([0] * n + [1])
+                A2 = A2 + [row] + ([row] if twice else [])
+                b2 = b + [1] + ([1] if twice else [])
+                c2 = ([big] + c) if front else (c + [big])
+                add(A2, b2, c2, d)
+    # two blocks side by side (block diagonal), same direction
+    for n1, n2 in (('chvatal', 'chvatal'), ('beale8', 'beale'), ('beale', 'kuhn')):
+        A1, b1, c1, d1 = blocks[n1]
+        A2, b2, c2, d2 = blocks[n2]
+        if d1 != d2:
+            c2 = [-x for x in c2]
+        k1, k2 = len(c1), len(c2)
+        A = [r + [0] * k2 for r in A1] + [[0] * k1 + r for r in A2]
+        add(A, b1 + b2, c1 + c2, d1)
+    return out
 
 
 def degenerate_family():
@@ -669,6 +754,8 @@ def main(prop):
     for r in results:
         by_status[r['status']] = by_status.get(r['status'], 0) + 1
         steps += r.get('steps', 0)
+        if r.get('cycling'):
+            by_status['(raw Dantzig stepping cycles; method must escape)'] = by_status.get('(raw Dantzig stepping cycles; method must escape)', 0) + 1
         for e in r.get('other_errors', []):
             other_errors[str(e)] = other_errors.get(str(e), 0) + 1
         it = items[r['idx']]
